@@ -548,6 +548,20 @@ func (g *Gen) contractFor(callee *ssa.Function, cc *ssa.CallCommon) *Contract {
 				return ct
 			}
 		}
+		// package-level frame: uncontracted functions of a package declared with `pkgframe`
+		if len(g.w.DB.PkgFrames) > 0 {
+			pp := ""
+			if callee.Pkg != nil && callee.Pkg.Pkg != nil {
+				pp = callee.Pkg.Pkg.Path()
+			} else if o := callee.Object(); o != nil && o.Pkg() != nil {
+				pp = o.Pkg().Path()
+			}
+			if reason, ok := g.w.DB.PkgFrames[pp]; ok && callee.Parent() == nil {
+				ct := &Contract{Key: funcKey(callee), Decl: funcKey(callee), Trusted: "package frame (" + pp + "): " + reason, Loops: map[int]*LoopC{}}
+				g.w.DB.Funcs[ct.Key] = ct
+				return ct
+			}
+		}
 		return nil
 	}
 	if cc != nil && cc.IsInvoke() {
@@ -813,6 +827,11 @@ func (g *Gen) atAnchor(anchor string, env *TEnv) {
 				continue // clause mentions a program variable that is not defined on this path
 			}
 			g.firedAnchors[anchor] = true
+			if a.Assume {
+				g.assume(g.curR, p)
+				g.assumptions["unchecked assumption at `"+a.Anchor+"` in "+g.fnName+": "+a.E.String()] = true
+				continue
+			}
 			o := g.ob("assert", invLabel(&Clause{Label: a.Label}, i), p, a.Anchor+": "+a.E.String())
 			if !a.GoalOnly && !isKnownFindingName(o.Name) {
 				g.assumeProved(g.curR, p)
